@@ -103,7 +103,7 @@ def run(F, R, tier, cfg):
         ok = True
         desc = []
         for a in alts:
-            if a[0] == "call" and (a[1].endswith("Vec::<T>::new") or a[1].endswith("::Vec::<T, A>::new") or a[1].endswith("vec::Vec::<T>::new")) and not a[2]:
+            if a[0] == "call" and (a[1].endswith("vec::Vec::<T>::new")) and not a[2]:
                 desc.append("empty vec")
                 continue
             tk = tokens(a)
@@ -146,7 +146,7 @@ def run(F, R, tier, cfg):
             # &mut cached_paths handed to a workspace function
             tgt = [t for t in F.callees_of_call(c) if F.has_body(t)]
             aty = pb.local_ty(c.args[0][1][0]) if c.args[0][0] in ("c", "m") else ""
-            if tgt and aty.startswith("&mut std::vec::Vec<"):
+            if tgt and aty.startswith("&mut alloc::vec::Vec<"):
                 ok = all(t == MERGE for t in tgt)
                 R.ob("WMC-cache-growth", "&mut cached_paths passed to %s" % [short(t) for t in tgt], ok, True)
                 if not ok:
@@ -198,7 +198,7 @@ def run(F, R, tier, cfg):
             if a[0] == "agg" and a[1][0] == "adt" and a[1][2] == "None":
                 continue
             some += 1
-            clones = [n for n in walk(a) if n[0] == "call" and n[1].endswith("as std::clone::Clone>::clone")]
+            clones = [n for n in walk(a) if n[0] == "call" and n[1].endswith("as core::clone::Clone>::clone")]
             ok = False
             for n in clones:
                 src = n[2][0]
@@ -235,7 +235,7 @@ def run(F, R, tier, cfg):
         ok = True
         n = 0
         for node in walk(o):
-            if node[0] == "agg" and node[1][0] == "adt" and node[1][2] in ("Some", "Ok") and node[1][1] in ("std::option::Option", "std::result::Result"):
+            if node[0] == "agg" and node[1][0] == "adt" and node[1][2] in ("Some", "Ok") and node[1][1] in ("core::option::Option", "core::result::Result"):
                 n += 1
                 tk = tokens(node[2][0])
                 src_ok = any(t.endswith("::try_active_path") or t.endswith("PathSetHandle::active_path") or t.endswith("ScionPath::local")
@@ -253,7 +253,7 @@ def run(F, R, tier, cfg):
     else:
         R.fn(PRED)
         o = pb.local_origin(0)
-        ok = o[0] == "call" and o[1].endswith("Iterator>::all") and "field:policies" in tokens(o[2][0])
+        ok = o[0] == "call" and (o[1].endswith("Iterator>::all") or o[1].endswith("Iterator::all")) and "field:policies" in tokens(o[2][0])
         if ok:
             cl = [t[8:] for t in tokens(o[2][1]) if t.startswith("closure:")]
             ok = False
